@@ -114,6 +114,10 @@ class C10(Prop):
         cfg["max_netlists"] = 2
         cfg["policy_start"] = rng.choice(["DEFAULT", "EDIF"])
         cfg["hostility"] = rng.choice([0.05, 0.1, 0.2])
+        # the oracle's own lookups make the library (re)build indexes it fills lazily: in some runs they are made
+        # after every step, in others only every k-th step or once at the end, so that edits also meet indexes
+        # nobody has asked for yet (the uniqueness scan reads attributes only and runs after every step)
+        cfg["lookup_every"] = rng.choice([1, 1, 1, 3, 8, 0])
         return cfg
 
     # ---- prediction made before the call ------------------------------------------
@@ -181,6 +185,10 @@ class C10(Prop):
                 return "noncompliant"
         return ""
 
+    def start(self, w, cfg):
+        self.cfg = cfg
+        self.steps_seen = 0
+
     def before(self, w, ev):
         return self.predict(w, ev)
 
@@ -198,6 +206,15 @@ class C10(Prop):
                                 "the call was accepted although it creates a %s name/identifier" % pre)
         if outcome == "skipped":
             return
+        every = self.cfg.get("lookup_every", 1)
+        self.steps_seen += 1
+        self.sweep(w, ev, disc, op, lookups=bool(every) and self.steps_seen % every == 0)
+
+    def finish(self, w, cfg):
+        if cfg.get("lookup_every", 1) != 1:
+            self.sweep(w, {}, "end_of_run", "end_of_run", lookups=True)
+
+    def sweep(self, w, ev, disc, op, lookups):
         objs, _ = scan(w.roots())
         extra = [ev[k] for k in ("name", "v") if isinstance(ev.get(k), str)]
         for o in objs:
@@ -225,7 +242,7 @@ class C10(Prop):
                                                     disc, "%s and %s in %s both carry %r" % (
                                                         w.name_of(seen[kk]), w.name_of(c), w.name_of(o), v))
                                 seen[kk] = c
-                    for v in vals:
+                    for v in (vals if lookups else ()):
                         want = scan_lookup(o, acc, key, v)
                         got = list(getter(o, v, key=key))
                         if len(got) != len(set(id(x) for x in got)):
